@@ -65,7 +65,7 @@ var props = map[string]propCfg{
 		Assumptions: append([]string{"porcupine v1.3.0 decides linearizability of the recorded histories correctly"}, commonAssumptions...),
 	},
 	"C13": {
-		Require: []string{"tolerant_scripts_checked", "stop_scripts_checked", "stop_scripts_zero_tolerance", "stop_scripts_other_error", "stop_scripts_silence_beyond_tolerance", "stop_scripts_other_error_after_tolerated_fault", "scripts_with_data_and_fault_in_one_read", "scripts_with_a_slow_first_fault", "scripts_with_long_retry_pause", "stop_scripts_silent_source_reporting_fresh_timeouts", "scripts_with_a_reused_config", "scripts_with_a_second_interruption_soon_after_the_first"},
+		Require: []string{"tolerant_scripts_checked", "stop_scripts_checked", "stop_scripts_zero_tolerance", "stop_scripts_other_error", "stop_scripts_silence_beyond_tolerance", "stop_scripts_other_error_after_tolerated_fault", "scripts_with_data_and_fault_in_one_read", "scripts_with_a_slow_first_fault", "scripts_with_long_retry_pause", "stop_scripts_silent_source_reporting_fresh_timeouts", "scripts_with_a_reused_config", "scripts_with_a_second_interruption_soon_after_the_first", "stop_scripts_slow_second_fault"},
 		Race:    true, QuickBatches: 8, ThoroughBatches: 64, Parallel: 8, Level: "fault_enumeration", Floor: 200,
 		Rule:        "short streams (2-4 small frames, junk, optional truncated tail, some hostile; <= 400 bytes) read through a scripted io.Reader behind bufio by the real file handler with wait 1 ms / tolerance 120 ms. Tolerant scripts: a single end-of-file or i/o timeout at EVERY byte boundary; double faults (eof / 'i/o timeout' text / wrapped os.ErrDeadlineExceeded, any pair) at every 4th boundary; two separate interruptions (single or double) at random boundaries - all bytes must be processed exactly once in order (delivered sequence = the same build's sequential framing of all bytes), the channel closed and an error returned at the final silence. The configuration's unrelated settings (read timeout, sleep after failed open) are varied too. Stop scripts at every (quick: every 3rd) boundary: zero tolerance, another read error, another read error directly after a tolerated fault, or silence beyond the tolerance followed by data that must not be consumed - delivered = sequential framing of the bytes supplied before the stop (partial frame as non-RTCM), channel closed, error returned. The reader timestamps its faults: a tolerant script on which the handler gave up while two consecutive faults were >= half the tolerance apart is retried and otherwise inconclusive. Non-trivial: the fault falls strictly inside a frame. Distinct by hash of the script.",
 		Assumptions: commonAssumptions,
@@ -120,7 +120,7 @@ var props = map[string]propCfg{
 		Assumptions: commonAssumptions,
 	},
 	"C01": {
-		Require:      []string{"stream_typed_deliveries", "stream_rejected_d3_candidates", "direct_typed_no_error", "direct_rejected", "direct_reused_buffer_decodes", "direct_after_a_stream", "invalid_leaders_swept", "direct_with_spare_capacity", "typed_messages_rechecked_after_display", "damaged_frames_in_long_sessions"},
+		Require:      []string{"stream_typed_deliveries", "stream_rejected_d3_candidates", "direct_typed_no_error", "direct_rejected", "direct_reused_buffer_decodes", "direct_after_a_stream", "invalid_leaders_swept", "direct_with_spare_capacity", "typed_messages_rechecked_after_display", "damaged_frames_in_long_sessions", "streams_with_a_consumer_that_fell_behind"},
 		QuickBatches: 8, ThoroughBatches: 64, Parallel: 16, Level: "exploration", Floor: 200,
 		Rule:        "hostile streams (valid frames of random type/length, stray 0xD3 runs, near-miss leaders, frames with one corrupted CRC byte / payload byte / forced 0xD3 / burst, length-field edits with and without CRC recomputation, truncated frames, NMEA/UBX/HTTP-like junk, random bytes dense in 0xD3) run through the stream handler, every typed delivery checked with an independent frame predicate (bitwise CRC-24Q); plus direct single-frame decoding of candidates (valid, valid+trailing bytes, crafted over-long inputs whose declared-length prefix has a bad CRC but whose whole has a good one, corrupted, truncated, zero-length, random). A stream is non-trivial when the gate took both outcomes (>=1 typed delivery and >=1 rejected 0xD3-led candidate); a direct call is non-trivial when the input is 0xD3-led and rejected, or typed with input longer than the frame. Distinct by hash of the input bytes.",
 		Assumptions: commonAssumptions,
@@ -132,7 +132,7 @@ var props = map[string]propCfg{
 		Assumptions: commonAssumptions,
 	},
 	"C03": {
-		Require:      []string{"payload_lengths_swept", "truncation_positions_swept", "messages_delivered_as_expected", "long_sessions", "long_junk_runs", "stalled_runs", "held_up_once_runs", "streams_handled_side_by_side", "live_source_runs"},
+		Require:      []string{"payload_lengths_swept", "truncation_positions_swept", "messages_delivered_as_expected", "long_sessions", "long_junk_runs", "stalled_runs", "held_up_once_runs", "streams_handled_side_by_side", "live_source_runs", "second_streams_on_one_handler"},
 		QuickBatches: 8, ThoroughBatches: 64, Parallel: 16, Level: "exploration", Floor: 200,
 		Rule:        "streams built from valid frames (any type, payload 1..1023; every payload length swept at least once; 0xD3 forced into payloads and found in CRC bytes), 0xD3-free junk runs (NMEA, UBX-like, HTTP, random; adjacent runs merged) and an optional truncated final frame (every truncation position of short frames swept). The expected (type, bytes) sequence is the generator's own segment list - no reference parser. Non-trivial: >=2 frames and (>=1 junk run or a truncated tail). Distinct by hash of the stream bytes.",
 		Assumptions: commonAssumptions,
@@ -144,7 +144,7 @@ var props = map[string]propCfg{
 		Assumptions: commonAssumptions,
 	},
 	"C14": {
-		Require:      []string{"large_buffer_extractions", "refilled_buffer_extractions", "concurrent_extractions", "shared_buffer_extractions", "extractions_from_read_only_memory"},
+		Require:      []string{"large_buffer_extractions", "refilled_buffer_extractions", "concurrent_extractions", "shared_buffer_extractions", "extractions_from_read_only_memory", "processes_whose_first_extractions_were_side_by_side"},
 		QuickBatches: 8, ThoroughBatches: 64, Parallel: 16, Level: "exploration", Floor: 1000, MayBeExhaustive: true,
 		Rule:        "structured part: every alignment (pos mod 8 in 0..7) x every width 1..64 (signed 2..64) x byte offsets {0,1,7} x patterns {all 0, all 1, walking 1, walking 0, min of width, max of width, 0xAA, 0x55}, each compared with a math/big extraction and re-run on a copy with all outside bits complemented; plus seeded random (buffer,pos,width) triples. A case is non-trivial when the field is not all-zero bits and does not start on a byte boundary or spans more than one byte; distinct by hash of (buffer,pos,width,signedness).",
 		Assumptions: commonAssumptions,
